@@ -29,5 +29,5 @@ def run(ctx):
                   "thorough": "all tunings; 20000 note sets; 15 chords; 3000 rendered programs"}[ctx.tier]
     ctx.rule = "tunings are read from the registry at run time (data); note sets are seeded random (domain), programs come from the TLA+ builder Gen_C20; distinct = distinct (operation, tuning, arguments / program); non-trivial = everything except notes outside every string's range"
     ctx.nontrivial = lambda r: r["op"] != "build"
-    recs = ctx.execute("c20", cases)
+    recs = ctx.execute("c20", cases, orders=2)
     ctx.validate("Trace_C20", recs, driver="c20", shard=4000)
